@@ -23,6 +23,7 @@ inductive PyErr
   | OSError | IncompleteReadError
   | FrameDataError | ReadError | ChecksumError | UnknownDeviceError | UnknownFrameError
   | outOfFuel | unsupported
+  | UnboundLocalError
 deriving Repr, DecidableEq
 
 abbrev PyM := Except PyErr
@@ -37,6 +38,10 @@ inductive V
   | tuple (xs : List V)
   | dict (ks : List String) (vs : List V)
   | obj (cls : String) (ks : List String) (vs : List V)
+  /-- a `dict` some key of which is not a string (a dict whose keys are all strings is `dict`) -/
+  | map (ks : List V) (vs : List V)
+  /-- a wire float: `w` bytes wide (4 / 8), the IEEE bit pattern as a number (DESIGN section 3: opaque bits) -/
+  | float (w : Nat) (bits : Nat)
 
 instance : Inhabited V := ⟨V.none⟩
 
@@ -105,8 +110,24 @@ def and (a b : V) : PyM V :=
     | some x, some y => pure (.int (iand x y))
     | _, _ => throw .TypeError
 
-/-- `a | b` -/
+/-- `d[k] = v` on the two parallel lists of a string-keyed dict: an existing key keeps its position -/
+def dictSet (ks : List String) (vs : List V) (k : String) (v : V) : List String × List V :=
+  match ks, vs with
+  | k' :: ks', v' :: vs' =>
+    if k' = k then (k' :: ks', v :: vs')
+    else let r := dictSet ks' vs' k v; (k' :: r.1, v' :: r.2)
+  | _, _ => ([k], [v])
+
+/-- `d1 | d2` / `d1 |= d2` of two string-keyed dicts (aliasing of `|=` is not modelled) -/
+def dictMerge (ks : List String) (vs : List V) : List String → List V → List String × List V
+  | k :: ks2, v :: vs2 => let r := dictSet ks vs k v; dictMerge r.1 r.2 ks2 vs2
+  | _, _ => (ks, vs)
+
+/-- `a | b`: ints / bools, and the union of two string-keyed dicts -/
 def or (a b : V) : PyM V :=
+  match a, b with
+  | .dict ks vs, .dict ks2 vs2 => let r := dictMerge ks vs ks2 vs2; pure (.dict r.1 r.2)
+  | _, _ =>
   match bothBool? a b with
   | some (x, y) => pure (.bool (x || y))
   | Option.none =>
@@ -180,7 +201,11 @@ def truthy : V → PyM Bool
   | .list xs => pure (!xs.isEmpty)
   | .tuple xs => pure (!xs.isEmpty)
   | .dict ks _ => pure (!ks.isEmpty)
-  | .obj .. => throw .unsupported
+  -- an instance of a plain data class (no `__bool__` / `__len__`: checked by the translator where it builds one) is
+  -- true; a `Frame` has `__len__` (serialises the frame): not modelled
+  | .obj c _ _ => if c = "Frame" then throw .unsupported else pure true
+  | .map ks _ => pure (!ks.isEmpty)
+  | .float .. => throw .unsupported
 
 def bool (v : V) : PyM V := do pure (.bool (← truthy v))
 
@@ -197,6 +222,10 @@ def eqB (a b : V) : PyM Bool :=
   | .tuple _, _ => throw .unsupported
   | .dict .., _ => throw .unsupported
   | .obj .., _ => throw .unsupported
+  | .map .., _ => throw .unsupported
+  | .float .., _ => throw .unsupported
+  | _, .map .. => throw .unsupported
+  | _, .float .. => throw .unsupported
   | _, .list _ => throw .unsupported
   | _, .tuple _ => throw .unsupported
   | _, .dict .. => throw .unsupported
@@ -245,6 +274,7 @@ def iter : V → PyM (List V)
   | .tuple xs => pure xs
   | .str s => pure (s.toList.map fun c => .str (String.singleton c))
   | .dict ks _ => pure (ks.map .str)
+  | .map ks _ => pure ks
   | _ => throw .TypeError
 
 def len : V → PyM V
@@ -253,6 +283,7 @@ def len : V → PyM V
   | .tuple xs => pure (.int xs.length)
   | .str s => pure (.int s.length)
   | .dict ks _ => pure (.int ks.length)
+  | .map ks _ => pure (.int ks.length)
   | _ => throw .TypeError
 
 /-- position of index `i` (negative: from the end) in a sequence of length `n` -/
